@@ -87,6 +87,7 @@ fn main() {
                 "sparse" => seq::Profile::Sparse,
                 "grow" => seq::Profile::Grow,
                 "slicecross" => seq::Profile::SliceCross,
+                "topblocks" => seq::Profile::TopBlocks,
                 _ => seq::Profile::General,
             };
             let nops: usize = m.get("ops").and_then(|s| s.parse().ok()).unwrap_or(40);
@@ -282,6 +283,7 @@ fn main() {
                     Some("flushy") => seq::Profile::Flushy,
                     Some("churn") => seq::Profile::Churn,
                     Some("slicecross") => seq::Profile::SliceCross,
+                    Some("topblocks") => seq::Profile::TopBlocks,
                     _ => seq::Profile::General,
                 };
                 let case = if kind == "format" {
